@@ -131,10 +131,10 @@ theorem batchMembers_member (st : SeqSt) (f : Str) (h : MemberAll st.rest) : Mem
   simp only [List.mem_append] at he
   rcases he with ((((he | he) | he) | he) | he) | he
   · simp at he; obtain ⟨_, _, rfl⟩ := he; exact member_search _ _ _
-  · split at he <;> simp at he <;> subst he <;> exact member_search _ _ _
-  · split at he <;> simp at he; subst he; exact member_search _ _ _
-  · split at he <;> simp at he <;> subst he <;> exact member_search _ _ _
-  · split at he <;> simp at he <;> subst he <;> exact member_search _ _ _
+  · unfold litBlock at he; split at he <;> simp at he <;> subst he <;> exact member_search _ _ _
+  · unfold ilitBlock at he; split at he <;> simp at he; subst he; exact member_search _ _ _
+  · unfold rxBlock at he; split at he <;> simp at he <;> subst he <;> exact member_search _ _ _
+  · unfold rxBlock at he; split at he <;> simp at he <;> subst he <;> exact member_search _ _ _
   · exact h e he
 
 def unmatchedOf (e : Expr) : Expr := match e with | .match _ x => x | x => x
